@@ -136,9 +136,14 @@ def run(chk, args):
     if args.replay:
         return replay(chk, args.replay)
     run_map_part(chk, args)
-    rig = globals().get("run_rig_part")
-    if rig is not None:
-        rig(chk, args)
+    try:
+        from checks import c18_rig
+    except ImportError:
+        c18_rig = None
+    if c18_rig is not None:
+        c18_rig.run_rig_part(chk, args)
+    else:
+        chk.note("c18_rig not present: RemoteAddr() attribution part skipped")
     chk.cov["exhaustive"] = True
     chk.cov["traces_validated_against_impl"] += 0
 
@@ -149,6 +154,14 @@ def replay(chk, path):
     if rp.get("test") in ("TestVerifClientIDMap", "TestVerifClientAddr"):
         s = _inpkg(chk, rp["test"], [rp["case"]], "replay")
         chk.note("replayed 1 case: %s" % s)
+    elif "scenario" in rp:
+        from checks import c05, c18_rig
+        import corerig
+        rigbin = vlib.go_build("./cmd/corerig", "corerig", linkflag=True)
+        sc = rp["scenario"]
+        results, summary, out, races = corerig.run_rig(rigbin, [sc], par=1, timeout=300, tag="replay")
+        c05.judge(chk, "C18", rigbin, [sc], results)
+        chk.cov["evaluations"] += 1
     else:
         raise vlib.Inconclusive("unknown replay file")
 
